@@ -6,10 +6,12 @@
 //	regress   hand-written inputs: every defect of checks/C07.findings.txt, the literals of
 //	          scanner_test.go, spec corner cases
 //	dense     every string over a 22-symbol lexically dense alphabet up to length 3 (quick) /
-//	          4 (thorough), and over a 12-symbol core up to length 4 (quick) / 6 (thorough)
-//	numbers   every string over {- 0 1 9 . e E + a} up to length 5 (quick) / 6 (thorough)
-//	quoted    a quote followed by every string over a 14-symbol string alphabet up to length 4 / 5
-//	block     three quotes, every body over {" \ space LF CR a} up to length 5 / 7, closed and unclosed
+//	          4 (thorough), and over a 12-symbol core up to length 4 (quick) / 5 (thorough)
+//	numbers   every string over {- 0 1 9 . e E + a} up to length 5 (alone and followed by " x") / 6
+//	quoted    a quote followed by every string over a 14-symbol string alphabet up to length 4,
+//	          unclosed and closed; thorough: a 10-symbol core at length 5, closed
+//	block     three quotes, every body over {" \ space LF CR a} up to length 5 / 6 closed and
+//	          unclosed; thorough: length 7 closed
 //	indent    block strings from (indent, content, terminator) templates: exhaustive small family
 //	          plus random larger ones
 //	uescape   \uXXXX escapes: boundary and random values, truncated forms
@@ -101,6 +103,7 @@ var dense = []string{`"`, `\`, "n", "u", "0", "1", "e", ".", "-", " ", "\n", "\r
 var core = []string{`"`, `\`, "u", "1", "e", ".", "-", "\n", "\r", "#", "a", fffd}
 var numberAlpha = []string{"-", "0", "1", "9", ".", "e", "E", "+", "a"}
 var quotedAlpha = []string{`"`, `\`, "n", "u", "0", "F", "/", "\n", "\r", "a", eAcc, fffd, "\x00", "\x80"}
+var quotedCore = []string{`"`, `\`, "n", "u", "0", "F", "\n", "a", fffd, "\x00"}
 var blockAlpha = []string{`"`, `\`, " ", "\n", "\r", "a"}
 
 // word i of length n over alphabet a (i in [0, len(a)^n))
@@ -406,10 +409,19 @@ func main() {
 			h.Case(func(r *rng.R) sexp.Node { return runCase(src) })
 		}
 		exhaustive(h, dense, 1, pick(3, 4), id)
-		exhaustive(h, core, 4, pick(4, 6), id)
-		exhaustive(h, numberAlpha, 1, pick(5, 6), func(w string) []string { return []string{w, w + " x"} })
-		exhaustive(h, quotedAlpha, 0, pick(4, 5), func(w string) []string { return []string{`"` + w, `"` + w + `" a`} })
-		exhaustive(h, blockAlpha, 0, pick(5, 7), func(w string) []string { return []string{`"""` + w + `"""`, `"""` + w} })
+		exhaustive(h, core, 4, pick(4, 5), id)
+		exhaustive(h, numberAlpha, 1, 5, func(w string) []string { return []string{w, w + " x"} })
+		if th {
+			exhaustive(h, numberAlpha, 6, 6, id)
+		}
+		exhaustive(h, quotedAlpha, 0, 4, func(w string) []string { return []string{`"` + w, `"` + w + `" a`} })
+		if th {
+			exhaustive(h, quotedCore, 5, 5, func(w string) []string { return []string{`"` + w + `"`} })
+		}
+		exhaustive(h, blockAlpha, 0, pick(5, 6), func(w string) []string { return []string{`"""` + w + `"""`, `"""` + w} })
+		if th {
+			exhaustive(h, blockAlpha, 7, 7, func(w string) []string { return []string{`"""` + w + `"""`} })
+		}
 		indentFamily(h)
 		// \uXXXX
 		for _, v := range []int{0, 1, 9, 0x1f, 0x20, 0x22, 0x5c, 0x7f, 0x80, 0x7ff, 0x800, 0xd7ff, 0xd800, 0xdbff, 0xdc00, 0xdfff, 0xe000, 0xfeff, 0xfffd, 0xfffe, 0xffff} {
@@ -438,16 +450,16 @@ func main() {
 				return runCase(`"` + rng.Pick(r, []string{"", "a", `\n`}) + `\u` + hx + rng.Pick(r, []string{"", "0", "z", `A`}) + `"`)
 			})
 		}
-		for i := 0; i < pick(4000, 60000); i++ {
+		for i := 0; i < pick(8000, 100000); i++ {
 			h.Case(func(r *rng.R) sexp.Node { return runCase(randomBlock(r)) })
 		}
-		for i := 0; i < pick(6000, 120000); i++ {
+		for i := 0; i < pick(20000, 250000); i++ {
 			h.Case(func(r *rng.R) sexp.Node { return runCase(randomText(r, false)) })
 		}
-		for i := 0; i < pick(3000, 60000); i++ {
+		for i := 0; i < pick(4000, 60000); i++ {
 			h.Case(func(r *rng.R) sexp.Node { return runCase(randomText(r, true)) })
 		}
-		for i := 0; i < pick(5000, 100000); i++ {
+		for i := 0; i < pick(6000, 100000); i++ {
 			h.Case(func(r *rng.R) sexp.Node { return runCase(mutate(r, randomText(r, r.Chance(1, 4)))) })
 		}
 	})
